@@ -91,7 +91,7 @@ def reg(pid, level, rules, explanation):
 
 reg("C01", "other",
     [T.t_bij, P.t_prop3, L.l_eq, B.l_cover, P.l_propdec, D.h_dispatch3, T.t_varint_readers, PL.s_persist, PL.h_total,
-     B.t_bits, C.h_payfmt, L.t_ctl, P3.h_shortform, TR.l_trace, P3.t_prims],
+     B.t_bits, C.h_payfmt, L.t_ctl, P3.h_shortform, TR.l_trace, P3.t_prims, T.t_proto],
     "NOT decided: equality of the decoded value with the original over the unbounded value space (a runtime quantity). Decided: structural necessary conditions of a round trip, each exact for what it compares: "
     "T-bij (every wire-code enum's `as u8` discriminant table and its from_u8 table, evaluated for all 256 bytes, are inverse "
     "bijections), T-prop3 (decode / encode / encode_len of every v5 property set handle the same ids wired to the same field), L-eq "
@@ -129,7 +129,7 @@ reg("C03", "other",
 
 reg("C04", "other",
     [T.t_codes, T.t_hdr, P.t_props, P.h_proplen, P.h_dup, P.h_bytevals, P.l_propdec, PL.h_exactfill, B.t_bits, B.h_checked_sub,
-     B.l_consume, C.h_ctor, C.h_utf8, T.t_varint_readers, P3.h_shortform, P3.t_prims],
+     B.l_consume, C.h_ctor, C.h_utf8, T.t_varint_readers, P3.h_shortform, P3.t_prims, C.h_accessors],
     "NOT decided: language equality between the strict decoder's accepted set and the MQTT grammar, nor the conjunction of the "
     "clauses below into it. Decided exactly against independent OASIS tables (spec_mqtt.py): header nibble/flag table for all 256 "
     "control bytes (T-hdr), accepted domain of every code table (T-codes), permitted property set per packet and its rejecting default "
@@ -160,7 +160,7 @@ reg("C06", "other",
     "encode side only).")
 
 reg("C07", "other",
-    [IO.s_readers, IO.s_ioerr, IO.t_eof, IO.h_noswallow, D.h_block, B.l_consume, PL.h_pending, PL.h_total, P3.t_prims],
+    [IO.s_readers, IO.s_ioerr, IO.t_eof, IO.h_noswallow, D.h_block, B.l_consume, PL.h_pending, PL.h_total, P3.t_prims, P.l_propdec],
     "Decided per site: every transport call is read_exact (operand read completely before use) or poll_read in poll "
     "(S-readers); every io::Result is propagated by `?` or a kind-preserving map_err (S-ioerr); is_eof <=> IoError(UnexpectedEof) "
     "for both error types and zero-length reads produce exactly that (T-eof, P-header/P-body); no map_err closure relabels an I/O "
@@ -200,7 +200,7 @@ reg("C10", "other",
 
 reg("C11", "other",
     [L.l_eq, B.l_cover, T.t_bij, PN.s_panic_encode, T.t_width, C.h_ctor, P.l_propdec, P.h_proplen, B.t_bits, L.t_ctl, P3.h_shortform,
-     TR.l_trace, P3.t_prims],
+     TR.l_trace, P3.t_prims, T.t_proto, P.t_prop3],
     "NOT decided: the runtime round trip over accepted byte strings. Decided (necessary): the encoder is length-exact on every "
     "value a decoder can construct, not only canonical ones (L-eq quantifies over all atom assignments); every length-bearing "
     "field is written whenever present, depending only on itself (L-cover); every enum value a from_u8 table returns is written "
@@ -255,7 +255,7 @@ reg("C17", "other",
     "share name.")
 
 reg("C18", "proof",
-    [T.t_tname, C.h_tn, C.h_ctor, C.h_priv, C.h_utf8],
+    [T.t_tname, C.h_tn, C.h_ctor, C.h_priv, C.h_utf8, RA.h_raise],
     "All obligations exact: TopicName::is_invalid is `byte length > 65535 || contains one of {'+','#','\\0'}` (T-tname, evaluated); "
     "try_from returns InvalidTopicName(value) iff is_invalid(value) else stores the same string (H-ctor, evaluated); it is the only "
     "construction site, fields are private (H-priv); Deref/Display return the text, is_shared/is_sys are starts_with(\"$share/\") / "
